@@ -279,6 +279,17 @@ async fn run_case(sc: &Value, flavour: usize) -> Vec<Value> {
                     let get = format!("GET http://{text}/ HTTP/1.1\r\nHost: x\r\n\r\n");
                     doors.push(("http", (name.clone(), 80, "domain"), door(vec![get.into_bytes()], vec![0]).await));
                 }
+                if n == 0 || (n > 255 && n <= 900) {
+                    // the request forms without an explicit port (default 80) and, for the empty name, with one
+                    let get = format!("GET http://{text}/x HTTP/1.1\r\nHost: h\r\n\r\n");
+                    doors.push(("http-noport", (name.clone(), 80, "domain"), door(vec![get.into_bytes()], vec![0]).await));
+                }
+                if n == 0 {
+                    let get = format!("GET http://:{port}/x HTTP/1.1\r\nHost: h\r\n\r\n");
+                    doors.push(("http", (name.clone(), port, "domain"), door(vec![get.into_bytes()], vec![0]).await));
+                    let connect = format!("CONNECT :{port} HTTP/1.1\r\nHost: h\r\n\r\n");
+                    doors.push(("connect", (name.clone(), port, "domain"), door(vec![connect.into_bytes()], vec![0]).await));
+                }
             }
         }
     }
